@@ -1,4 +1,12 @@
 #!/usr/bin/env python3
-import re, os
-t = open(os.path.join(os.path.dirname(os.path.dirname(os.path.abspath(__file__))), "lean", "lakefile.toml")).read()
-print(" ".join(re.findall(r'\[\[lean_exe\]\]\s*name = "([^"]+)"', t)))
+"""Driver executables of the claimed checks (built by setup.sh)."""
+import glob, os, sys
+here = os.path.dirname(os.path.dirname(os.path.abspath(__file__)))
+sys.path.insert(0, here)
+from checks import registry
+out = ["drv_kernels"]
+for p in sorted(glob.glob(os.path.join(here, "lean", "Drivers", "C[0-9]*.lean"))):
+    n = os.path.basename(p)[:-5]
+    if n[:3] in registry.ENABLED:
+        out.append("drv_" + n.lower())
+print(" ".join(out))
